@@ -271,6 +271,19 @@ func (x *Exec) specBuiltin(c *EvalCtx, name string, args []ast.Expr) (Val, bool)
 			v = c.coerce(v, sl.Elem())
 		}
 		return scalar(Eq(cur, Store(old, BVBin("bvadd", a.T[1], idx), v.One())), types.Typ[types.Bool]), true
+	case "crc16of", "crc16xmodem", "crc32cof":
+		// uninterpreted functions of a byte sequence (content and length)
+		a := c.eval(args[0])
+		if _, ok := a.Typ.Underlying().(*types.Slice); !ok {
+			evalFail("%s expects a byte slice", name)
+		}
+		w := 16
+		typ := types.Type(types.Typ[types.Uint16])
+		if name == "crc32cof" {
+			w, typ = 32, types.Typ[types.Uint32]
+		}
+		x.S.DeclareFun("uf_"+name, []Sort{SArr(SBV(64), SBV(8)), SBV(64)}, SBV(w))
+		return scalar(app(SBV(w), "uf_"+name, x.normBytes(c.heap(), a), a.T[2]), typ), true
 	case "later": // later(p, q): object p was allocated after object q (references are handed out in increasing order)
 		a, b := c.eval(args[0]), c.eval(args[1])
 		return scalar(IntLt(b.T[0], a.T[0]), types.Typ[types.Bool]), true
